@@ -523,7 +523,8 @@ class OutputVariable(Variable):
 
         # Locking previous values
         if self.lock_previous:
-            with np.nditer(value, op_flags=[["readwrite"]]) as iterator:
+            # rows are visited in index order (not memory order: a reversed view has negative strides)
+            with np.nditer(value, op_flags=[["readwrite"]], order="C") as iterator:
                 previous_value = self.previous_value
                 for value_i in iterator:
                     if np.isnan(value_i):
